@@ -51,6 +51,12 @@ func IMMSites() []Site {
 		{Tag: "T2 incdec x2.M++", Stmt: "x2.M++", Subj: SubjT2, Codes: i3},
 		{Tag: "T2 mut assign x2.F", Stmt: "x2.F = 1", Subj: SubjT2Mut, Codes: i1, Core: true},
 		{Tag: "T2 mut compound x2.F+=", Stmt: "x2.F += 1", Subj: SubjT2Mut, Codes: i2},
+		// reached without importing d in the file: through a helper function and an alias declared in a sibling file
+		{Tag: "noimport hp().F=1", Stmt: "hp().F = 1", Subj: SubjT, Codes: i1, OnlyInU: true, NoImport: true},
+		{Tag: "noimport hp().F+=1", Stmt: "hp().F += 1", Subj: SubjT, Codes: i2, OnlyInU: true, NoImport: true},
+		{Tag: "noimport hp().F++", Stmt: "hp().F++", Subj: SubjT, Codes: i3, OnlyInU: true, NoImport: true},
+		{Tag: "noimport hp().Xs[0]=1", Stmt: "hp().Xs[0] = 1", Subj: SubjT, Codes: i4, OnlyInU: true, NoImport: true},
+		{Tag: "noimport (&LT{}).F=1", Stmt: "(&LT{}).F = 1", Subj: SubjT, Codes: i1, OnlyInU: true, NoImport: true},
 		// a second imported package with the same type names and the opposite annotations
 		{Tag: "e.T (unannotated namesake) assign", Stmt: "(&e.T{}).F = 1", Subj: SubjSilent, Core: true, OnlyInU: true},
 		{Tag: "e.T (unannotated namesake) index", Stmt: "(&e.T{}).Xs[0] = 1", Subj: SubjSilent, OnlyInU: true},
@@ -116,6 +122,11 @@ func CTORSites() []Site {
 		{Tag: "T2 lit T2{}", Stmt: "_ = {T2}{}", Subj: SubjT2, Codes: c1, Core: true, PkgLevel: "var $g = {T2}{}"},
 		{Tag: "T2 new(T2)", Stmt: "_ = new({T2})", Subj: SubjT2, Codes: c2},
 		{Tag: "T2 var v T2", Stmt: "var $v {T2}; _ = $v", Subj: SubjT2, Codes: c3},
+		// reached without importing d in the file
+		{Tag: "noimport LT{}", Stmt: "_ = LT{}", Subj: SubjT, Codes: c1, OnlyInU: true, NoImport: true},
+		{Tag: "noimport new(LT)", Stmt: "_ = new(LT)", Subj: SubjT, Codes: c2, OnlyInU: true, NoImport: true},
+		{Tag: "noimport var v LT", Stmt: "var $v LT; _ = $v", Subj: SubjT, Codes: c3, OnlyInU: true, NoImport: true},
+		{Tag: "noimport *hp() = LT{}", Stmt: "*hp() = LT{}", Subj: SubjT, Codes: c1, OnlyInU: true, NoImport: true},
 		// a second imported package with the same type names and the opposite annotations
 		{Tag: "e.T (unannotated namesake) lit", Stmt: "_ = e.T{}", Subj: SubjSilent, Core: true, OnlyInU: true},
 		{Tag: "e.T (unannotated namesake) new/var", Stmt: "var $v e.T; _, _ = $v, new(e.T)", Subj: SubjSilent, OnlyInU: true},
